@@ -203,6 +203,11 @@ def run(ctx):
     ok = all(o.ok for o in ctx.obs[before:])
     ctx.ob(R6, f"{HR}._error_catcher", f"{len(ctx.obs) - before} shared obligations (C01-R5, C01-R6) hold", ok)
 
+    # ------------------------------------------------------------------ shared with C03-R8: a damaged / unfinished response's connection is not recycled by an early release
+    from .c03 import rule_r8 as _c03_r8
+    _c03_r8(ctx)
+    ctx.rules["C03-R8"]["decides"] = "(shared with C03) the connection that carried an unfinished body is never handed to another request by release_conn: " + ctx.rules["C03-R8"]["decides"]
+
     # ------------------------------------------------------------------ R7 preload uses the same reader
     R7 = ctx.rule("C13-R7", "preloading uses the same reader: the constructor's preload calls read(), so a truncated preloaded body raises like a streamed one", "E8")
     c13_rows.r7_preload(ctx, R7)
